@@ -354,6 +354,14 @@ class Resolver:
                     contig = False  # order='K' keeps the layout of the source: a transposed / fancy-indexed source stays non-C
                 else:
                     contig = None  # order='K' keeps the layout of the source
+                    a0 = c.args[0]
+                    root = a0.value if isinstance(a0, ast.Subscript) else a0
+                    params = {p_.arg for p_ in fn.args.args + fn.args.kwonlyargs} if fn is not None else set()
+                    if dtn is not None and isinstance(root, ast.Name) and root.id in params and f in ("np.array", "np.asarray", "numpy.array"):
+                        # a conversion site for an array the caller hands in: it fixes the dtype but, without
+                        # order='C', keeps whatever memory order the caller's array has
+                        out.add(Src(dt, None, s.shape, f"{f}({core.src(a0)}, dtype={dt}) keeps the caller's memory order (no order='C')"))
+                        continue
                 out.add(Src(dt, contig, s.shape, f"{f}(…, dtype={dt})"))
             return out
         if f in ("np.arange", "np.linspace"):
